@@ -64,7 +64,13 @@ func vfPayload(dir, off, n int) []byte {
 	return out
 }
 
-func vfRealClient(n *wire.Net) (net.Conn, error) {
+func vfRealClient(n *wire.Net) (net.Conn, error) { return vfRealClientOn(n.Conn(wire.A)) }
+
+func vfRealServer(n *wire.Net) (net.Conn, error) { return vfRealServerOn(n.Conn(wire.B)) }
+
+// vfRealClientOn / vfRealServerOn build a real endpoint through the public
+// factories on top of the given transport connection.
+func vfRealClientOn(under net.Conn) (net.Conn, error) {
 	cf, err := (&Transport{}).ClientFactory("")
 	if err != nil {
 		return nil, err
@@ -73,19 +79,19 @@ func vfRealClient(n *wire.Net) (net.Conn, error) {
 	if err != nil {
 		return nil, err
 	}
-	c, err := cf.Dial("tcp", "192.0.2.1:443", func(string, string) (net.Conn, error) { return n.Conn(wire.A), nil }, args)
+	c, err := cf.Dial("tcp", "192.0.2.1:443", func(string, string) (net.Conn, error) { return under, nil }, args)
 	if err != nil {
 		return nil, err
 	}
 	return c, nil
 }
 
-func vfRealServer(n *wire.Net) (net.Conn, error) {
+func vfRealServerOn(under net.Conn) (net.Conn, error) {
 	sf, err := (&Transport{}).ServerFactory("", &pt.Args{})
 	if err != nil {
 		return nil, err
 	}
-	c, err := sf.WrapConn(n.Conn(wire.B))
+	c, err := sf.WrapConn(under)
 	if err != nil {
 		return nil, err
 	}
